@@ -929,3 +929,97 @@ def check_fresh_per_iteration(ctx, funcs: typing.Iterable[FuncInfo], rule="FRESH
         ctx.check(inside, rule, f"{f.qualname}|{short(c, 50)}", ctx.where(f.module, c), f"`{v}` is constructed inside the loop",
                   f"`{short(c, 60)}` runs once per iteration of `{short(lp, 40)}` but `{v}` is constructed once, outside the loop: the second iteration pushes an element that already has a parent (RuntimeError)")
   return n
+
+
+# ---------------------------------------------------------------------------------------
+# RAISE-interval: a serialiser that refuses end <= begin must never be handed an interval that is
+# empty at its own time resolution
+# ---------------------------------------------------------------------------------------
+
+def _rounded(e, name: str) -> typing.Optional[str]:
+  """The way `name` is brought to the output's time resolution in e (`round(x, 3)`, `ClockTime.from_seconds(x)...`,
+  `int(x * 1000)`): the expression text with the name replaced by a hole; None when e is not such a form of the bare name."""
+  if not any(isinstance(n, ast.Name) and n.id == name for n in ast.walk(e)):
+    return None
+  if not any(isinstance(c, ast.Call) and unparse(c.func).split(".")[-1] in ("round", "from_seconds", "int", "floor", "ceil") for c in ast.walk(e)):
+    return None
+  return unparse(e).replace(name, "_")
+
+
+def check_interval_resolution(ctx, producer: FuncInfo, refuser: FuncInfo, rule="RAISE-interval"):
+  """`refuser` (the cue's to_string) raises when the printed end is not after the printed begin.
+  `producer` (add_isd(isd, begin, end)) therefore must not create a cue unless, at the resolution of
+  the printed time codes, end > begin (or end is unbounded): on every path to a call that passes the
+  interval on, a test that compares the *rounded* end and begin has excluded the empty case."""
+  import itertools
+  from ..cfg import CFG, fact_holds_at
+  from . import match
+  ctx.unit(producer.module)
+  ps = [p_ for p_ in producer.params if p_ not in ("self", "cls")]
+  if len(ps) < 3:
+    raise AnalysisError(f"{producer.qualname}: expected parameters (isd, begin, end)")
+  b, e = ps[-2], ps[-1]
+  refuses = any(isinstance(n, ast.If) and isinstance(n.body[-1], ast.Raise) and match.relation(n.test, match.mentions("_end"), match.mentions("_begin")) in ("<=", "<")
+                for n in own_nodes(refuser.node))
+  if not refuses:
+    ctx.ok(rule, f"{producer.qualname}|the serialiser accepts any interval", ctx.where(refuser.module, refuser.node), f"{refuser.short} does not raise on end <= begin")
+    return 0
+  sinks = [c for c in own_nodes(producer.node) if isinstance(c, ast.Call) and not unparse(c.func).startswith("LOGGER")
+           and any(isinstance(a, ast.Name) and a.id == b for a in c.args) and any(isinstance(a, ast.Name) and a.id == e for a in c.args)]
+  if not sinks:
+    raise AnalysisError(f"{producer.qualname}: no call passes ({b}, {e}) on")
+  cfg = CFG(producer.node)
+
+  def leaf(t):
+    nt = match.is_none_test(t, lambda x: isinstance(x, ast.Name) and x.id == e)
+    if nt is not None:
+      return ("N", nt)
+    if isinstance(t, ast.Compare) and len(t.ops) == 1:
+      l, r = t.left, t.comparators[0]
+      for x, y, flip in ((l, r, False), (r, l, True)):
+        sx, sy = _rounded(x, e), _rounded(y, b)
+        if sx is not None and sx == sy:
+          rel = match.relation(t, lambda z: z is x, lambda z: z is y)
+          if rel in ("<=", ">"):
+            return ("L", rel == "<=")
+    return None
+
+  def establishes(test, pol):
+    # whenever `test` has truth value `pol`: end is None, or rounded end > rounded begin
+    try:
+      for N, L in itertools.product((False, True), repeat=2):
+        def val(a, N=N, L=L):
+          if a == "N":
+            return N
+          if N:
+            raise match.AtomError(a)
+          return L
+        try:
+          # the tests of the ifs around this one hold with their polarity whenever it is evaluated
+          holder = getattr(test, "_parent", None)
+          infeasible = False
+          for t, p_ in (match.enclosing_conditions(holder, producer.node) if holder is not None else []):
+            try:
+              if match.eval_bool(t, leaf, val) != p_:
+                infeasible = True
+            except ValueError:
+              pass          # a test about something else: no information
+          if infeasible:
+            continue
+          tv = match.eval_bool(test, leaf, val)
+        except match.AtomError:
+          return False
+        if tv == pol and not (N or not L):
+          return False
+      return True
+    except ValueError:
+      return False
+  n = 0
+  for c in sinks:
+    n += 1
+    nid = cfg.stmt_node_containing(c)
+    ctx.check(fact_holds_at(cfg, nid, establishes), rule, f"{producer.qualname}|{short(c, 60)}", ctx.where(producer.module, c),
+              f"reached only when {e} is None or the rounded {e} is after the rounded {b}",
+              f"`{short(c, 60)}` creates a cue for an interval that can be empty at the resolution of the printed time codes "
+              f"(e.g. {b}=1 s, {e}=1.0004 s): {refuser.short} then raises ValueError and the whole document cannot be written")
+  return n
